@@ -114,6 +114,9 @@ def anchor_universe() -> dict:
     # excess is skipped) fit into mutated encodings of the container
     types.append(td("Tiny", [fld("x", prim("uint", 8))], sealed=False, extent_bits=16))
     types.append(td("ArrDel", [fld("v", {"t": "varr", "elem": ref("Tiny"), "cap": 3, "incl": True}), fld("w", {"t": "farr", "elem": ref("Tiny"), "n": 2}), fld("k", prim("uint", 8))]))
+    # array length prefixes of 8 and 16 bits at the capacity boundary (255 / 256), byte-aligned and not
+    types.append(td("LenPrefix", [fld("a", {"t": "varr", "elem": prim("uint", 8), "cap": 256, "incl": True}), fld("b", {"t": "varr", "elem": {"t": "bool"}, "cap": 255, "incl": True}),
+                                  fld("c", {"t": "varr", "elem": prim("int", 16), "cap": 257, "incl": True}), fld("d", {"t": "varr", "elem": prim("uint", 7, "truncated"), "cap": 255, "incl": True})]))
     # fixed port-ID 0 is a valid port-ID (message and service)
     types.append(dict(td("PortZero", [fld("x", prim("uint", 8))]), port_id=0))
     types.append({"ns": ["anchor"], "name": "SvcZero", "major": 1, "minor": 0, "port_id": 0, "kind": "service", "deprecated": False, "doc": [],
